@@ -77,10 +77,10 @@ class Waveform:
         return self.next(samples)
 
     def get_duration(self):
-        raise NotImplementedException
+        raise NotImplementedError
 
     def is_complete(self):
-        raise NotImplementedException
+        raise NotImplementedError
 
 
 class ContinuousWaveform(Waveform):
